@@ -766,6 +766,61 @@ NO_CODE_CONTRACTS = '''statechart:
               - always: __old__.g == g
 '''
 
+PRIORITY_AFTER_FIRST = '''statechart:
+  name: two regions react to one event; the state examined second has a high-priority transition whose guard is false and a low-priority one
+''' + PRE + '''  root state:
+    name: root
+    initial: P
+    states:
+      - name: P
+        transitions:
+          - target: P
+            event: e
+            guard: (g >> 3) & 1 == 1
+            action: y = y + 100
+        parallel states:
+          - name: A
+            initial: a1
+            states:
+              - name: a1
+                transitions:
+                  - target: a2
+                    event: e
+                    action: x = x + 1
+              - name: a2
+                transitions:
+                  - target: a1
+                    event: e
+          - name: B
+            initial: b1
+            states:
+              - name: b1
+                transitions:
+                  - target: b2
+                    event: e
+                    priority: high
+                    guard: (g >> 0) & 1 == 1
+                    action: y = y + 10
+                  - target: b3
+                    event: e
+                    priority: low
+                    guard: (g >> 1) & 1 == 1
+                    action: y = y + 1
+              - name: b2
+                transitions:
+                  - target: b1
+                    event: e
+              - name: b3
+                transitions:
+                  - target: b1
+                    event: e
+                    priority: high
+                    guard: (g >> 2) & 1 == 1
+                  - target: b2
+                    event: e
+                    priority: -3
+'''
+
 
 def deep_chain_yaml(depth=12):
     """root > line > {idle, s1 ... nested `depth` levels (level2..), H* deep history, h shallow history}; names like s1 / s10
@@ -864,6 +919,10 @@ def entries():
     out.append(('no_code_contracts', NO_CODE_CONTRACTS, None,
                 [('exec',), ('bits', 1), q('e0'), ('exec',), ('bits', 2), q('e0'), ('exec',), ('bits', 3), q('e0'), ('exec',), ('bits', 4),
                  ('exec',), q('e0'), ('exec',), ('bits', 5), q('e0'), ('exec',), ('exec',)]))
+
+    out.append(('priority_after_first', PRIORITY_AFTER_FIRST, None,
+                [('exec',), ('bits', 2), q('e'), ('exec',), q('e'), ('exec',), q('e'), ('exec',), ('bits', 6), q('e'), ('exec',), ('bits', 1), q('e'), ('exec',),
+                 ('bits', 0), q('e'), ('exec',), ('bits', 10), q('e'), ('exec',), ('exec',)]))
 
     def add_noncontiguous(sc):
         from sismic.model import Transition
